@@ -158,12 +158,18 @@ def run(ctx):
     jobs = []
     idx = 0
     for vi, ann in enumerate(variants):
-        for nodes in ([1, 2, 3] if ctx.quick else [1, 2, 3, 3]):
+        # one process: sequential executions (1 core) under schedulers that order the three consumers differently, so that a
+        # consumer overwriting its private copy runs BEFORE a sibling's conversion in some run; then 2-3 processes
+        plan = [(1, 1, "lfq"), (1, 1, "ip"), (1, 1, "ap"), (1, rng.choice([2, 3]), "ll"), (2, rng.choice([1, 2, 3]), None),
+                (3, rng.choice([1, 2, 3]), None)] + ([] if ctx.quick else [(3, 2, None), (2, 1, "ip")])
+        for nodes, cores, sched in plan:
             nt = rng.randint(max(2, nodes), 4)
             mb = rng.choice([3, 4, 5])
             env = {"PARSEC_MCA_runtime_comm_coll_bcast": str(rng.randint(0, 2)),
                    "PARSEC_MCA_runtime_comm_short_limit": "0"}
-            jobs.append((exes[vi], idx, ann, nodes, nt, mb, scrib_mask(ann, nodes), env, rng.choice([1, 2, 3])))
+            if sched:
+                env["PARSEC_MCA_mca_sched"] = sched
+            jobs.append((exes[vi], idx, ann, nodes, nt, mb, scrib_mask(ann, nodes), env, cores))
             idx += 1
     with cf.ThreadPoolExecutor(max_workers=4) as ex:
         lines = list(ex.map(lambda j: one_run(ctx, *j), jobs))
